@@ -165,6 +165,7 @@ class Judge:
                               v140=first, now=d['key'])
                 elif first != d['key']:
                     self.disc('C02', 'I-location', op['i'], f'{name}: same computation, different storage key', first=first, now=d['key'],
+                              zone='set_valued_parameter_object' if _has_pset(it) else None,
                               render=render, hs=self.scn['procs'][self.proc['index']].get('hs'))
                 other = self.D_of_key.setdefault((it.slug, d['key']), it.D)
                 if other != it.D:
@@ -599,6 +600,21 @@ class Judge:
                 t.migrated = True
 
 
+def _has_pset(it):
+    """does this computation (or anything upstream of it) take a parameter object that stores a python set?"""
+    seen = set()
+    work = [it]
+    while work:
+        t = work.pop()
+        if t.fullname in seen:
+            continue
+        seen.add(t.fullname)
+        if 'PSet' in json.dumps(t.persisted, default=str):
+            return True
+        work.extend(t.inputs.values())
+    return False
+
+
 def _is_work_path(rel):
     """paths that are work areas / side files, not results: <key>_tmp*, <key>_error, <key>_old, logs, run infos, links"""
     base = rel.rsplit('/', 1)[-1]
@@ -945,6 +961,9 @@ class Eval:
                 msg = 'computed value does not correspond to the configuration (stale/foreign input or parameter)'
             j.disc(prop, 'I-value', op['i'], f'{name}: {msg}', got=_short(got, 300), expected=_short(exp, 300),
                    loads=[n for (n, _, _) in self.loads], runs=[p[2] for p in self.pred])
+            if prop != 'C01' and not (isinstance(got, dict) and '$canon_error' in got):
+                # whatever the cause: a well-formed value that is not the computation's was handed to the caller
+                j.disc('C01', 'I-value', op['i'], f'{name}: wrong value returned ({msg})', got=_short(got, 300), expected=_short(exp, 300))
         if len(self.loads) == 1 and not self.pred and it.inputs:
             j.stats['loaded_without_upstream'] += 1
         if self.pred and any(t is not None and i not in it.cspec['reads'] for i, (inp, t) in enumerate(it.rel_inputs)):
